@@ -4,6 +4,7 @@ import Tahoe.Mutable.CheckRepair
 
     `check VTABLE op op …`  → healthy;recoverable;need_repair;good/needed/expected/hosts/wrong;#recoverable;#unrecoverable
                               (`_make_checker_results`, `_got_mapupdate_results`, `_count_shares`)
+    `checkv SRV.SH,SRV.SH,… VTABLE op op …` → as `check`, after the verifier marked those slots bad (`afterVerify`)
     `repair FORCE WRITEKEY VTABLE op op …` → decision of `Repairer._got_full_servermap`:
                               unrepairable | MustForceRepairError:newer | MustForceRepairError:merge |
                               RepairRequiresWritecapError | republish:VIDX:NEWSEQ
@@ -21,6 +22,21 @@ def handle : List String → String
     match (do
       let tbl ← parseVTable vt
       let sm ← buildMap tbl {} ops
+      let r := makeCheckerResults sm
+      let c := r.counters
+      pure (tf r.healthy ++ ";" ++ tf r.recoverable ++ ";" ++ tf (needRepair sm) ++ ";" ++
+            s!"{c.good}/{c.needed}/{c.expected}/{c.goodHosts}/{c.wrong}" ++ ";" ++
+            s!"{r.numRecoverable};{r.numUnrecoverable}")) with
+    | some s => s
+    | none => "bad-op"
+  | "checkv" :: marks :: vt :: ops =>
+    match (do
+      let tbl ← parseVTable vt
+      let sm0 ← buildMap tbl {} ops
+      let ms ← if marks == "-" then some [] else (marks.splitOn ",").mapM (fun t => match t.splitOn "." with
+        | [a, b] => do pure (((← a.toNat?), (← b.toNat?)), ([0] : List Nat))
+        | _ => none)
+      let sm := afterVerify sm0 ms
       let r := makeCheckerResults sm
       let c := r.counters
       pure (tf r.healthy ++ ";" ++ tf r.recoverable ++ ";" ++ tf (needRepair sm) ++ ";" ++
